@@ -9,7 +9,11 @@ ID = 'C10'
 TITLE = 'Removing rows leaves no references to them'
 PROPS = ['Props/C10']
 RULE = ('(L1) random op sequences (set/unset/growto/copy_from_column/clear; right-type, wrong-type, out-of-range, '
-        'string-hack values) on REAL ReferenceColumn/ReferenceListColumn objects vs the model; (L2) every call the live '
+        'string-hack values, RefList cells holding the same target id more than once: adjacent, non-adjacent, all equal) '
+        'on REAL ReferenceColumn/ReferenceListColumn objects vs the model, and (L1b) get_updates_for_removed_target_rows '
+        'of the real column after such a sequence (the repeated id removed alone and with others) vs the model; '
+        'histories also write repeated ids into user RefLists and into metadata RefLists (_grist_Tables_column.recalcDeps, '
+        '.rules) and then remove the repeated target (record, column, metadata record); (L2) every call the live '
         'reference-column objects receive during random user-action histories (recorded by wrapping the column classes) '
         'replayed by the model; (L3) every single-action record removal of those histories on a user table: the world '
         'of columns of/targeting the table before, and the engine result after, vs the model of doBulkRemoveRecord; '
@@ -174,6 +178,9 @@ def explicit_ids(bundle, table_id, col_id):
       walk(a[3][col_id])
     elif a[0] in ('AddOrUpdateRecord', 'BulkAddOrUpdateRecord'):
       walk(a[2:])
+    elif a[0] in ('AddColumn', 'ModifyColumn', 'AddVisibleColumn') and table_id == '_grist_Tables_column' \
+         and isinstance(a[3], dict) and col_id in a[3]:
+      walk(a[3][col_id])        # col_info fields (recalcDeps, rules, ...) are written into the column's metadata record
   return out
 
 
@@ -249,7 +256,12 @@ class Oracle(object):
       return None
     replaced = {a[1]: set(a[2]) for a in bundle if a[0] == 'ReplaceTableData'}
     now = {t: set(e.tables[t].row_ids) for t in e.tables}
-    removed = {t: rows - now.get(t, set()) for t, rows in tok['rows'].items()}
+    # a table that disappeared because it was RENAMED has not lost its rows
+    renamed = {a[1] for a in bundle if a[0] == 'RenameTable'} | \
+              ({t for t in tok['rows'] if t not in now}
+               if any(a[0] in ('UpdateRecord', 'BulkUpdateRecord') and a[1] == '_grist_Tables' and 'tableId' in (a[3] or {})
+                      for a in bundle) else set())
+    removed = {t: rows - now.get(t, set()) for t, rows in tok['rows'].items() if t in now or t not in renamed}
     cols = k4.ref_columns(e)
     # (i) no cell mentions a row removed by this bundle.  An undo is exempt: it re-creates the state before the
     # undone bundle exactly (C01), including references that were dangling then.
